@@ -152,3 +152,6 @@ fn c18_reject_nonmembers_clap() {
     kani::cover!(r.is_ok());
     kani::cover!(r.is_err() && n > 10);
 }
+
+// a concrete playback test printed by Kani for a failing harness of this module is replayed from here
+include!(concat!(env!("VERIF_KANI_GEN"), "/playback_c18.rs"));
